@@ -3,7 +3,6 @@ package props
 import (
 	"fmt"
 	"go/ast"
-	"go/token"
 	"go/types"
 	"sort"
 	"strings"
@@ -104,6 +103,39 @@ func r072Verbs(c *an.Ctx) {
 			fv := an.FieldOf(f.Pkg.TypesInfo, tag)
 			return fv != nil && fv.Name() == "Method"
 		})
+		// the switch may sit in a helper extracted from the builder that receives the route's method
+		group := c.WithNewHelpers(f)
+		for _, h := range group[1:] {
+			methodParams := map[types.Object]bool{}
+			for _, g := range group {
+				ginfo := g.Pkg.TypesInfo
+				for _, call := range an.AllCallsIn(g.Decl.Body) {
+					if an.Callee(ginfo, call) != types.Object(h.Obj) {
+						continue
+					}
+					k := 0
+					for _, fl := range h.Decl.Type.Params.List {
+						for _, nm := range fl.Names {
+							if k < len(call.Args) {
+								if fv := an.FieldOf(ginfo, call.Args[k]); fv != nil && fv.Name() == "Method" {
+									methodParams[h.Pkg.TypesInfo.Defs[nm]] = true
+								}
+							}
+							k++
+						}
+					}
+				}
+			}
+			if len(methodParams) == 0 {
+				continue
+			}
+			labels = append(labels, caseLabelValues(h, func(tag ast.Expr) bool {
+				if fv := an.FieldOf(h.Pkg.TypesInfo, tag); fv != nil && fv.Name() == "Method" {
+					return true
+				}
+				return methodParams[an.ObjOf(h.Pkg.TypesInfo, tag)]
+			})...)
+		}
 		have := map[string]bool{}
 		for _, l := range labels {
 			have[l] = true
@@ -273,9 +305,9 @@ func r075Body(c *an.Ctx) {
 		if f == nil {
 			continue
 		}
-		info := f.Pkg.TypesInfo
 		found := false
-		ast.Inspect(f.Decl.Body, func(nd ast.Node) bool {
+		c.InspectAll(f, func(hf *an.Func, nd ast.Node) bool { // the builder and the helpers extracted from it
+			info := hf.Pkg.TypesInfo
 			be, ok := nd.(*ast.BinaryExpr)
 			if !ok {
 				return true
@@ -312,25 +344,26 @@ func r076Summary(c *an.Ctx) {
 				if mr.Class != "order-sensitive" {
 					continue
 				}
-				key := f.Name + "#" + types.ExprString(mr.Stmt.X)
-				if allowed, reviewed := reviewedMapRanges[key]; reviewed {
-					extra := 0
-					for _, r := range mr.Reasons {
-						ok := false
-						for _, a := range allowed {
-							if a == r {
-								ok = true
+				for _, key := range c.SiteKeys(f, mr.Stmt.X) {
+					if allowed, reviewed := reviewedMapRanges[key]; reviewed {
+						extra := 0
+						for _, r := range mr.Reasons {
+							ok := false
+							for _, a := range allowed {
+								if a == r {
+									ok = true
+								}
+							}
+							if !ok {
+								extra++
 							}
 						}
-						if !ok {
-							extra++
+						if extra == 0 {
+							continue
 						}
 					}
-					if extra == 0 {
-						continue
-					}
+					c.Failf(rule, strings.Replace(key, "#", "#range(", 1)+")", mr.Stmt.Pos(), "the document content depends on map iteration order: %s", mr.Reason)
 				}
-				c.Failf(rule, f.Name+"#range("+types.ExprString(mr.Stmt.X)+")", mr.Stmt.Pos(), "the document content depends on map iteration order: %s", mr.Reason)
 			}
 		}
 	}
@@ -414,23 +447,18 @@ func r079ScopeLists(c *an.Ctx) {
 	for _, dir := range []string{"http/codegen/openapi/v2", "http/codegen/openapi/v3"} {
 		for _, f := range c.AllFuncs(dir) {
 			info := f.Pkg.TypesInfo
-			parent := an.ParentMap(f.Decl.Body)
 			// nonNil: expression is a fresh slice, or a field/var guarded by len(e) > 0
+			var g *an.CFG
 			guarded := func(at ast.Node, e ast.Expr) bool {
-				for p := parent[at]; p != nil; p = parent[p] {
-					is, ok := p.(*ast.IfStmt)
-					if !ok || !(at.Pos() >= is.Body.Pos() && at.End() <= is.Body.End()) {
-						continue
-					}
-					cmp, ok := an.Unparen(is.Cond).(*ast.BinaryExpr)
-					if !ok || cmp.Op != token.GTR {
-						continue
-					}
-					call, ok := an.Unparen(cmp.X).(*ast.CallExpr)
-					if !ok || len(call.Args) != 1 {
-						continue
-					}
-					if id, ok := call.Fun.(*ast.Ident); ok && id.Name == "len" && an.SameExpr(info, call.Args[0], e) {
+				if g == nil {
+					g = an.NewCFG(info, f.Decl.Body)
+				}
+				loc, found := g.LocOf(at)
+				if !found {
+					return false
+				}
+				for _, fct := range g.AtomicFacts(loc) {
+					if an.NonEmptyFact(info, fct, e) {
 						return true
 					}
 				}
